@@ -18,6 +18,16 @@ SIM_ASSUME = [
     "pgregory.net/rapid v1.3.0 generation/shrinking; Go 1.23.5",
 ]
 
+def rp(pkg, test, q, t, **kw):
+    d = {"pkg": pkg, "test": test,
+         "quick": {"checks": q[0], "shards": q[1], "shrink": "20s", "timeout": "15m"},
+         "thorough": {"checks": t[0], "shards": t[1], "shrink": "90s", "timeout": "4h"}}
+    d.update(kw)
+    return d
+
+
+PURE_ASSUME = ["pgregory.net/rapid v1.3.0 generation/shrinking; Go 1.23.5", "the harness's own YAML emitter / JWT builder are correct (independent of the code under test)"]
+
 PROPS = {
     "C01": {"level": "exploration", "assumptions": SIM_ASSUME, "parts": [sim("TestC01")]},
     "C02": {"level": "exploration", "assumptions": SIM_ASSUME, "parts": [sim("TestC02", q=(300, 4), t=(4000, 16))]},
@@ -27,6 +37,10 @@ PROPS = {
     "C06": {"level": "exploration", "assumptions": SIM_ASSUME, "parts": [sim("TestC06")]},
     "C07": {"level": "exploration", "assumptions": SIM_ASSUME, "parts": [sim("TestC07Sim")]},
     "C08": {"level": "exploration", "assumptions": SIM_ASSUME, "parts": [sim("TestC08", q=(300, 4), t=(4000, 16))]},
+    "C14": {"level": "exploration", "assumptions": PURE_ASSUME + ["HMAC-SHA256 is unforgeable; the run's secret never appears in a generated invalid credential unless the harness itself signs with it", "route discovery through the verif-only server.Routes hook + chi.Walk"],
+            "parts": [rp("httpauth", "TestC14", (3000, 2), (60000, 8))]},
     "C15": {"level": "exploration", "assumptions": SIM_ASSUME, "parts": [sim("TestC15", q=(250, 4), t=(3000, 16))]},
     "C16": {"level": "exploration", "assumptions": SIM_ASSUME, "parts": [sim("TestC16")]},
+    "C17": {"level": "exploration", "assumptions": PURE_ASSUME,
+            "parts": [rp("inputs", "TestC17Load", (300, 2), (5000, 8)), rp("inputs", "TestC17Corrupt", (600, 2), (10000, 8)), rp("inputs", "TestC17Equals", (5000, 2), (100000, 8))]},
 }
